@@ -14,6 +14,11 @@ Split of labour (this is the property where the proof assistant contributes leas
     pyarrow transformers, directly, through TransformFrameworkStep.transform, through ComputeFramework.transform, through
     upload_table -> Flight -> convert_flyserver_data_back, and end to end through mloda.run_all; compared after a
     normalisation that tolerates exactly null/NaN/pd.NA and the float widening of nullable integer columns.
+  VALUES, PROVED ABOUT A MODEL (Props/C14val.v) + T2c (harness/c14_conv.py): Model/ValueConv.v models the four transformer
+    functions on python-dict rows / Arrow typed columns / pandas dtyped columns with bit-exact doubles; Props/C14val.v proves
+    forward and round-trip preservation for every table and every ordered pair outside the two known-loss domains, and the
+    int64 -> float64 exactness characterisation.  T2c evaluates the model conversions inside Coq on the tables of T2b and
+    compares them with the real conversions cell by cell (column kinds / dtypes included, floats by their bits).
 """
 from __future__ import annotations
 
@@ -29,6 +34,7 @@ from lib import vlib
 from lib.vlib import cq_bool, cq_list
 from harness import c14_gen
 from harness import c14_values as V
+from harness import c14_conv
 
 LEVEL = "proof"
 logging.disable(logging.CRITICAL)
@@ -658,6 +664,16 @@ def short(t: Dict[str, Any]) -> str:
     return json.dumps(t, ensure_ascii=True)[:400]
 
 
+def _ver(mod: str) -> str:
+    try:
+        return str(__import__(mod).__version__)
+    except Exception:  # noqa: BLE001
+        return "?"
+
+
+_LAST_TABLES: List[Any] = []
+
+
 def run(rep: vlib.Reporter, tier: str, seed: int) -> None:
     t_start = time.time()
     big = tier == "thorough"
@@ -666,16 +682,26 @@ def run(rep: vlib.Reporter, tier: str, seed: int) -> None:
     pr = vlib.build_props("C14")
     stale = recount_after_failure(pr)
     rep.proof(pr)
+    pr_val = vlib.build_props("C14val")                 # value-level model: preservation for every table, every ordered pair
+    rep.proof(pr_val)
     if stale:
         rep.add("proof_files_failing_on_this_tree", stale)
     rep.add("gen_registry", {"rewritten": changed, **{k: snap[k] for k in ("ok", "problems", "fw_names", "hub", "installed")},
                              "declarations": [d["name"] for d in snap["decls"]],
                              "registry_pairs": [[e["from"], e["to"], e["name"]] for e in snap["registry"]]})
     rep.coverage["trusted_base"] += [
-        "NOT PROVED, only tested (T2b): that the pandas<->pyarrow and list<->pyarrow conversions preserve names, rows and "
-        "values -- this is the Section-style hypothesis `bijective_registry` of C14_roundtrip_under_bijection / "
-        "C14_installed_roundtrip; pandas 3 / pyarrow conversion kernels, Arrow Flight transport and Python float/int semantics "
-        "are outside any model",
+        "value preservation is PROVED ABOUT A MODEL (Model/ValueConv.v, Props/C14val.v), not about pandas / pyarrow: the library "
+        "facts L1-L7 in the header of Model/ValueConv.v (from_pylist looks cells up by name and infers one kind per column; "
+        "to_pylist; to_pandas dtype mapping incl. nullable int64 -> float64 by round-to-nearest-even; from_pandas("
+        "preserve_index=False) dtype mapping with NaN -> null; one NaN; strings copied) are ASSUMED and tied to pandas "
+        f"{_ver('pandas')} / pyarrow {_ver('pyarrow')} / numpy {_ver('numpy')} by the correspondence chk_conv on every run (bit-exact, all six directions, "
+        "both legs and the round trip); the exact bijection hypothesis `bijective_registry` of C14_roundtrip_under_bijection "
+        "is NOT discharged literally (it is false: null comes back as NaN) -- the quotient statement is proved instead",
+        "abstraction function of the value tie harness/c14_conv.py `abstract` (reads a real pa.Table / pd.DataFrame / list of "
+        "dicts, writes the model term incl. Arrow type / pandas dtype per column, doubles by their IEEE bits); outside it: "
+        "pandas nullable extension dtypes, chunk layout, string vs large_string, NaN payloads, Arrow Flight transport",
+        "int64 -> binary64 is SpecFloat.binary_normalize 53 1024 (stdlib, pure Gallina); additionally compared with the kernel "
+        "primitive PrimFloat.of_uint63 (hardware rounding) on every integer of every correspondence case (evaluation only)",
         "T1 translator harness/c14_gen.py: imports every module below mloda_plugins/compute_framework/base_implementations, "
         "evaluates framework()/other_framework()/check_*_import() of every BaseTransformer subclass, the transformer_map of a "
         "fresh ComputeFrameworkTransformer(), expected_data_framework() of every available ComputeFramework",
@@ -747,6 +773,10 @@ def run(rep: vlib.Reporter, tier: str, seed: int) -> None:
         found = values_part(rep, rng, big, flight_ok, snap) or found
     finally:
         Flight.stop()
+    t_val = time.time()
+
+    # ---------------- T2c: the value MODEL (Model/ValueConv.v) against the real conversions, inside Coq ----------------
+    found = c14_conv.run_tie(rep, seed, big, _LAST_TABLES) or found
 
     rep.add("rule", "registry: PRNG lists of 1-8 add() calls over 1-6 generated transformer classes on 2-5 frameworks (hub present in "
                     "85%), classes possibly unimplemented / not importable / degenerate (fw = other) / conflicting; every ordered pair "
@@ -756,11 +786,22 @@ def run(rep: vlib.Reporter, tier: str, seed: int) -> None:
                     "null), booleans, nulls; x source framework x native variant (Arrow typed/chunked, pandas inferred/nullable "
                     "dtypes with Range/non-Range index, list plain/shuffled keys) x every other framework x {direct, "
                     "ComputeFramework.transform, TransformFrameworkStep.transform, upload/download}; each forward and round trip. "
-                    "non-trivial = table with >= 1 row and >= 1 null or special value (distinct by table, pair, variant, mode)")
-    rep.add("wall_s_by_part", {"proof_and_registry": round(t_reg - t_start, 1), "values_e2e_traces": round(time.time() - t_reg, 1)})
+                    "non-trivial = table with >= 1 row and >= 1 null or special value (distinct by table, pair, variant, mode). "
+                    "value model (T2c): the same tables (quick: the corpus + the first 220 generated; thorough: + 4000), every source framework x one "
+                    "native variant (corpus: all; extension-dtype variants excluded) x both other frameworks, real forward and back "
+                    "conversion through TransformFrameworkStep.transform (corpus also through the transformer classes directly), plus "
+                    "python-dict tables with one row's keys dropped / added / renamed / reordered (schema check); checked in Coq: "
+                    "model = real for both legs bit for bit, routing model over Gen/Registry = the six conversions, pres on the real "
+                    "round trip outside the loss domains; non-trivial = source with a null, a non-integer cell or |int| >= 2**53")
+    rep.add("wall_s_by_part", {"proof_and_registry": round(t_reg - t_start, 1), "values_e2e_traces": round(t_val - t_reg, 1),
+                               "value_model_tie": round(time.time() - t_val, 1)})
     if not pr.ok and not found:
         rep.finding("proof-broken", "Props/C14.v no longer checks",
                     {"failed_files": pr.failed_files, "forbidden": pr.forbidden, "log_tail": pr.log[-3000:],
+                     "gen_registry": snap}, found_input=False)
+    if not pr_val.ok and not found:
+        rep.finding("proof-broken-values", "Props/C14val.v no longer checks (value model over the regenerated registry)",
+                    {"failed_files": pr_val.failed_files, "forbidden": pr_val.forbidden, "log_tail": pr_val.log[-3000:],
                      "gen_registry": snap}, found_input=False)
 
 
@@ -787,6 +828,7 @@ def values_part(rep: vlib.Reporter, rng: random.Random, big: bool, flight_ok: bo
     n_e2e = 400 if big else 40
     fixed = V.fixed_tables()
     tables = [(t, True) for t in fixed] + [(V.gen_table(rng), False) for _ in range(n_tables)]
+    _LAST_TABLES[:] = tables                              # the value-model tie (T2c) runs on the same tables
     dist: Dict[str, Any] = {"tables": len(tables), "fixed_corpus": len(fixed), "rows": {}, "kinds": {}, "checks_by_mode": {},
                             "skipped_no_direct": 0, "by_pair": {}, "deviations_by_kind": {}, "source_not_representable": 0}
     kf_first: Dict[str, Dict[str, Any]] = {}
@@ -937,6 +979,9 @@ def replay(path: str) -> int:
             finally:
                 Flight.stop()
         print("now:", json.dumps(rec["devs"], ensure_ascii=True, indent=1)[:2000] if rec["devs"] else "no deviation (preserved)")
+    elif r.get("kind") == "conv":
+        c14_gen.generate()
+        c14_conv.replay_conv(r)
     elif r.get("kind") == "registry":
         print("now:", json.dumps(run_registry_case(r["case"]))[:2000])
         print("recorded:", json.dumps(r["obs"])[:2000])
